@@ -23,6 +23,7 @@ EXPLANATION = (
     "listings. Because R1 is a statement about every mutating call it covers every prefix of every "
     "execution (crash points) without extra machinery. External preprocessor commands and races are "
     "out of scope."
+    ' R6: page-tree locations are lexical joins below page_dir; ordered_subpage / copy_subdir entries cannot leave it (sanitiser idioms are recognised, element provenance of the page names is computed through helper functions).'
 )
 ASSUMPTIONS = [
     "the set of mutating APIs is the reviewed list MUTATORS below (extended if a new module is imported: imports of os/shutil/pathlib/tempfile members are enumerated)",
